@@ -234,6 +234,12 @@ pub fn run_plan(c: &mut Collector, o: &mut dyn Oracle, seed: u64, shard: u64, ns
         let mut rng = Rng::new(0xF20E + shard);
         workload::ep_frozen_family(&mut rng, shard, nshards, plan.crafted_ep_stride.max(8), &mut crafted);
     }
+    if plan.crafted_ep_stride > 0 {
+        workload::ep_discovery_family(shard, nshards, (plan.crafted_ep_stride / 4).max(1), &mut crafted);
+        workload::line_geometry_family(shard, nshards, (plan.crafted_ep_stride / 8).max(1), &mut crafted);
+        let mut rng = Rng::new(0xD0B1 + shard);
+        workload::double_pin_family(&mut rng, if plan.crafted_ep_stride <= 4 { 600 } else { 120 }, &mut crafted);
+    }
     if plan.crafted_other {
         let mut all = Vec::new();
         workload::castle_family(&mut all);
@@ -439,6 +445,40 @@ impl Oracle for C01 {
         }
         if c.want_sample() && !n.moves.is_empty() {
             c.sample(n.replay().set("legal_moves", want.len()));
+        }
+        // generation restricted to a destination mask must yield exactly the legal moves into it:
+        // single destinations of the special moves, a file, a rank and two seeded masks
+        {
+            let mut masks: Vec<u64> = Vec::new();
+            for m in n.legal.iter().filter(|m| n.model.is_castle(**m) || n.model.is_ep_capture(**m) || m.promo.is_some()).take(4) {
+                masks.push(1u64 << m.to);
+            }
+            if !n.legal.is_empty() {
+                let m = *rng.pick(n.legal);
+                masks.push(1u64 << m.to);
+                masks.push(0x0101010101010101u64 << file_of(m.to));
+                masks.push(0xffu64 << (8 * rank_of(m.to)));
+            }
+            masks.push(rng.next_u64());
+            masks.push(rng.next_u64() & rng.next_u64());
+            for mask in masks {
+                c.count("legals_masked-comparisons");
+                let mut got: Vec<Mv> = n.real.legals_masked(chess_bitboard::BitBoard::from_u64(mask)).map(mv_back).collect();
+                got.sort();
+                let wantm: Vec<Mv> = want.iter().copied().filter(|m| mask & (1u64 << m.to) != 0).collect();
+                if got != wantm {
+                    let missing: Vec<Mv> = wantm.iter().copied().filter(|m| !got.contains(m)).collect();
+                    let extra: Vec<Mv> = got.iter().copied().filter(|m| !wantm.contains(m)).collect();
+                    let (kind, cls) = if let Some(m) = extra.first() { ("extra-move", move_class(n.model, *m)) } else if let Some(m) = missing.first() { ("missing-move", move_class(n.model, *m)) } else { ("duplicate-move", "any") };
+                    c.violation(
+                        kind,
+                        &format!("legals_masked:{cls}"),
+                        format!("{} legals_masked({mask:#018x}) yields [{}], the legal moves into the mask are [{}]", n.model.to_fen(), moves_str(&got), moves_str(&wantm)),
+                        n.replay().set("check", "legals_masked").set("mask", format!("{mask:#018x}")),
+                    );
+                    break;
+                }
+            }
         }
         // single-move legality query
         let mut probes: Vec<Mv> = want.clone();
